@@ -165,6 +165,17 @@ def check(ix, rep):
     rep.floor('offline handlers checked for idempotent re-evaluation', noff, 60)
     n = ownrule.run(ix, rep)
     rep.floor('functions in the ownership analysis', n, 250)
+    # a declared constant used as a bound denotes the same (value, unit) pair as the literal it stands for
+    from sa.rules import units, store
+    prod = units.parser_unit_strings(ix, rep)
+    a, b = prod['visitConstantTimeLiteral'], prod['visitIntervalTimeLiteral']
+    if (a[0], a[1]) == (b[0], b[1]):
+        rep.ok('R-INLINE', a[2].module.rel, a[2].qual, 'const-bound-unit', 'a constant bound gets the same unit string as a literal bound (%s or the written suffix)' % sorted(a[0]), a[2].node.lineno)
+    else:
+        rep.fail('R-INLINE', a[2].module.rel, a[2].qual, 'const-bound-unit', 'a bound given by a declared constant without suffix gets unit %s, a literal bound %s: replacing the constant by its '
+                 'literal changes how the unit of the other bound is inherited' % (sorted(a[0]) or 'a computed value', sorted(b[0])), a[2].node.lineno)
+    # the pastifier rewrites every occurrence of a shared sub-specification for its own remaining look-ahead
+    store.check_pastifier_remap(ix, rep)
     nf = _pastifier_fresh(ix, rep)
     rep.floor('pastifier handlers', nf, 30)
     explanation = (
